@@ -44,6 +44,8 @@ echo "err of $name" >&2
 code=0
 [ -f "$ctl/exit_$name" ] && code=$(cat "$ctl/exit_$name")
 if [ "$code" = "0" ]; then echo done > "$COND_OUT/done.txt"; fi
+# a helper the task leaves behind: it still holds the task's stdout / stderr and prints a moment after the shell has exited
+if [ -e "$ctl/late_$name" ]; then ( sleep 0.35; echo "late line of $name"; echo "late err of $name" >&2 ) & fi
 echo "code=$code" > "$ctl/$id.end"
 if [ "$code" = "kill" ]; then kill -9 $$; fi
 exit $code
@@ -431,6 +433,71 @@ def damage_archive(path, how, arg=None):
         shutil.rmtree(d, ignore_errors=True)
 
 
+class RowWatcher:
+    """While a command runs: the moment a new row appears in the version index, the tree of that version's directory is
+    snapshotted; finish() names the versions whose directory content changed AFTER they were recorded.
+    A separate PROCESS (not a thread: the commands are run in forked children, and forking a multi-threaded process can leave
+    the child with a lock held by a thread that does not exist there)."""
+
+    def __init__(self, root, before):
+        self.root = root
+        self.known = {(r["task"], r["ts"]) for r in (before["rows"] or [])}
+        self.stop_file = os.path.join(root, "..", "watch.stop.%d" % os.getpid())
+        self.out_file = os.path.join(root, "..", "watch.out.%d" % os.getpid())
+        for f in (self.stop_file, self.out_file):
+            if os.path.exists(f):
+                os.unlink(f)
+        self.pid = os.fork()
+        if self.pid == 0:
+            try:
+                C._die_with_parent()
+                seen = {}
+                while not os.path.exists(self.stop_file):
+                    for key in self._rows():
+                        if key not in self.known and key not in seen:
+                            seen[key] = self._digest(*key)
+                    time.sleep(0.004)
+                with open(self.out_file + ".tmp", "w") as f:
+                    json.dump([[t, ts, d0] for (t, ts), d0 in sorted(seen.items())], f)
+                os.rename(self.out_file + ".tmp", self.out_file)
+            finally:
+                os._exit(0)
+
+    def _digest(self, task, ts):
+        pkg, name = P.split_id(task)
+        base = os.path.join(self.root, "cond-out", pkg)
+        leaf = "%s.task.%d" % (name, ts)
+        return CLI.subtree_digest(CLI.snapshot_tree(base), leaf) if os.path.isdir(os.path.join(base, leaf)) else None
+
+    def _rows(self):
+        path = os.path.join(self.root, "cond-out", "version_index.sqlite")
+        if not os.path.exists(path):
+            return []
+        try:
+            conn = sqlite3.connect("file:%s?mode=ro" % path, uri=True, timeout=0.05)
+            try:
+                return [(r[0], r[1]) for r in conn.execute("SELECT task_identifier, timestamp FROM version_index")]
+            finally:
+                conn.close()
+        except sqlite3.Error:
+            return []
+
+    def finish(self):
+        open(self.stop_file, "w").close()
+        try:
+            os.waitpid(self.pid, 0)
+        except ChildProcessError:
+            pass
+        time.sleep(0.5)           # a helper the task left behind may still be printing
+        seen = []
+        if os.path.exists(self.out_file):
+            seen = json.load(open(self.out_file))
+            os.unlink(self.out_file)
+        if os.path.exists(self.stop_file):
+            os.unlink(self.stop_file)
+        return [[t, ts] for t, ts, d0 in seen if d0 is not None and self._digest(t, ts) != d0]
+
+
 def run_history(scn):
     """Forked child. Executes the steps of a scenario on a fresh project; returns the raw history."""
     d = tempfile.mkdtemp(prefix="cvhist_", dir=C.scratch_root())
@@ -506,6 +573,11 @@ def run_history(scn):
             for name, mode in st.get("tidy", {}).items():
                 with open(os.path.join(ctl, "tidy_" + name), "w") as f:
                     f.write(mode)
+            for f in os.listdir(ctl):
+                if f.startswith("late_"):
+                    os.unlink(os.path.join(ctl, f))
+            for name in st.get("late", []):
+                open(os.path.join(ctl, "late_" + name), "w").close()
             clock = st.get("clock", clock)
             argv = [commits[int(a[len("@commit"):])] if isinstance(a, str) and a.startswith("@commit") and commits else a
                     for a in st["argv"]]
@@ -516,8 +588,10 @@ def run_history(scn):
             tgt_root = os.path.join(d, st["project"]) if st.get("project") else root
             if st.get("project"):
                 before = CLI.project_store(tgt_root)
+            watcher = RowWatcher(tgt_root, before) if st.get("watch") else None
             r = run_command(tgt_root, argv, cwd=st.get("cwd", ""), clock=clock, crash_at=st.get("crash_at"),
                             count=st.get("count", False))
+            late_writes = watcher.finish() if watcher else []
             after = CLI.project_store(tgt_root)
             oafter = outside_digest(root)
             status = r.get("status")
@@ -528,6 +602,7 @@ def run_history(scn):
                    "effects": r.get("effects"), "effect_log": r.get("effect_log"), "cwd": st.get("cwd", ""),
                    "timeout": bool(r.get("_timeout")), "error": r.get("_error")}
             if cmd == "run":
+                rec["late_writes"] = late_writes
                 rec["spawns"] = read_spawns(root, seen)
                 rec["head"], rec["dirty"] = head, dirty
             if cmd == "gcdry":
@@ -594,7 +669,8 @@ def to_store_trace(hid, scn, hist):
                     continue
                 code = r["code"]
                 code = 0 if code == "0" else (137 if code == "kill" else (int(code) if code and code.isdigit() else 1))
-                sp.append([I("id:" + ident), ts, 1 if (ident, ts) in bkeys else 0, 1 if r["listing"] == "" else 0, code])
+                late = 1 if [ident, ts] in (s.get("late_writes") or []) else 0
+                sp.append([I("id:" + ident), ts, 1 if (ident, ts) in bkeys else 0, 1 if r["listing"] == "" else 0, code, late])
             e["spawns"] = sp
             e["head"] = I("c:" + s["head"]) if s.get("head") else 0
             e["dirty"] = 1 if s.get("dirty") else 0
